@@ -170,7 +170,11 @@ extern "C" void h_hint_qr(void) {
         size_t want_ip = (c_in ? 1 : 0) + (s_in ? 1 : 0) - ((c_in && s_in && g.client_ip.m_val == g.server_ip.m_val) ? 1 : 0);
         __verif_assert(b->m_ip_address.size() == want_ip, "every address-table entry is referenced by a stored member (C04)");
     } else {
-        __verif_assert(b->m_ip_address.size() == 0 || true, "");
+        // nothing was stored: then nothing may have reached a table either (a value inserted before -- or outside -- the guard of the member
+        // that would refer to it is an unreachable table entry)
+        __verif_assert(b->m_ip_address.size() == 0 && b->m_qr_sig.size() == 0, "a record that stores no member leaves every table empty: no unreachable table entry (C04)");
     }
+    __verif_assert(b->m_classtype.size() == 0 && b->m_name_rdata.size() == 0 && b->m_qlist.size() == 0 && b->m_qrr.size() == 0 && b->m_rrlist.size() == 0 && b->m_rr.size() == 0 &&
+                   b->m_malformed_message_data.size() == 0, "tables no member of this record refers to stay empty (C04)");
     WITNESS_END();
 }
